@@ -126,7 +126,7 @@ pub fn run_history(cfg: &HistCfg, gen: &mut dyn FnMut(&World) -> Option<Op>, max
         let r = exec::step(&op);
         if r.applied {
             ops.push(op);
-        } else if cfg.class != Class::Script {
+        } else if cfg.class != Class::Script && cfg.class != Class::Dead {
             // generated histories are valid by construction; an inapplicable op in a replay under a
             // different layout means the histories diverged
             world::with(|w| w.harness_error(format!("operation `{}` not applicable", op)));
